@@ -57,6 +57,7 @@ fn main() {
         "C03" => rig::props::c03::main(tier, replay),
         "C04" => rig::props::c04::main(tier, replay),
         "C05" => rig::props::c05::main(tier, replay),
+        "C06" => rig::props::c06::main(tier, replay),
         "C07" => rig::props::c07::main(tier, replay),
         "debug-rich" => rig::props::c07::debug_rich(),
         "selftest" => rig::props::c03::selftest(),
